@@ -36,8 +36,7 @@ Definition code_old (c:code) : code := with_class c 3 mls_old.
 Definition m0 : mspec := mkSpec [3] false 1 0 0.
 Definition witness (c:code) : list op := [SetVar V_Q 1; Realize 7; SetVar (v_par c m0 0 0) 1; Realize 7].
 
-(** the z-derivative slots made ordinary results (written at every realization of their stage): what the proposed repair
-    patches/C16_disabled_force_zdot.diff does (the subsystem zeroes its z-derivatives before the enabled elements write theirs) *)
-Definition unskip (T:table) : table :=
-  mkT (t_vars T) (map (fun d => mkR (r_dep d) (r_by d) (r_lazy d) (r_reads d) (r_zero d) None) (t_res T)).
+(** the force subsystem before commit c50039ce: z-derivatives not cleared at Dynamics *)
+Definition code_zold (c:code) : code :=
+  with_fsub c (mkF (f_en_inv (c_fsub c)) (f_flag_dep (c_fsub c)) (f_flag_by (c_fsub c)) false).
 Definition mz : mspec := mkSpec [13] false 1 0 0.
